@@ -120,6 +120,12 @@ func EvalConds(o *ObjView, conds map[string]string) CondResult {
 	if failNot {
 		st = append(st, 304)
 	}
+	for _, v := range vals {
+		if v < 0 {
+			st = append(st, 400) // a failing condition with a negative number may also be refused as malformed
+			break
+		}
+	}
 	return CondResult{Statuses: st}
 }
 
